@@ -129,6 +129,26 @@ def check_rank_siblings(cx, rule):
     if set(called) != want or len(last) != 1:
         rule.violation('Channel::remove_user|sibling', 'Channel::remove_user does not clear all five rank sets (%s missing) and the member entry'
                        % sorted(want - set(called)), loc=fn)
+    # ... each of them whenever the member holds that rank (flag <-> set agreement is what the other siblings maintain), the entry
+    # whenever the nick is a member
+    member = has(field(ME, 'users'), NICK)
+    for e, x in effs:
+        if x['args'][:1] != [NICK]:
+            continue
+        if x['op'] == 'remove' and x['place'] == field(ME, 'users'):
+            rule.instance('Channel::remove_user drops the member entry of every member')
+            if not entails(member, e.pc)[0]:
+                rule.violation('Channel::remove_user|entry-condition', 'the member entry is not removed for every member (condition %s)'
+                               % show(e.pc)[:80], loc=cx.loc(e.node))
+        elif x['op'] in want and x['place'] == ME:
+            setname = [s for s in RANK_SETS if 'remove_' + RANK_METHOD[s] == x['op']][0]
+            fl = RANK_FLAG[setname]
+            assume = And(member, *[Atom(a) for a in atoms(e.pc) if a[0] == 'flag' and path_of(a[1])[-1:] == [fl]])
+            rule.instance('Channel::remove_user clears %s for every member flagged %s' % (setname, fl))
+            if not entails(assume, e.pc)[0]:
+                rule.violation('Channel::remove_user|%s-condition' % setname, 'a departing member flagged %s is not always taken out of '
+                               'modes.%s (condition %s): the stale entry keeps receiving prefix-addressed messages under that nick'
+                               % (fl, setname, show(e.pc)[:80]), loc=cx.loc(e.node))
     # Channel::add_user: five blocks
     fn = cx.fn('add_user', 'structs::Channel')
     UN = P('user_nick')
